@@ -2500,3 +2500,40 @@ func ruleDurationUnits(r *Run, id string, pkgs ...string) {
 	}
 	r.Stat("duration_constants", n)
 }
+
+// ruleNoTickerPerIteration: a ticker paces a loop only if it outlives the iterations. Created inside the loop — or in a
+// helper the loop calls once per event — it is restarted by every event, and the interval fires only after a full
+// interval of silence: steady traffic with gaps shorter than the interval starves it.
+func ruleNoTickerPerIteration(r *Run, id string, pkgs ...string) {
+	r.Begin(id, "tickers outlive the loop they pace: no function of the named packages creates a ticker (time.NewTicker, FlushPolicy.Ticker) inside a loop, directly or in a helper called from the loop body", 2)
+	p := r.P
+	names := []string{"time.NewTicker", "/iscp.FlushPolicy.Ticker"}
+	n := 0
+	for _, fn := range p.Funcs {
+		okPkg := false
+		for _, pk := range pkgs {
+			if fnPkgPath(fn) == modPath+pk {
+				okPkg = true
+			}
+		}
+		if !okPkg || fn.Blocks == nil {
+			continue
+		}
+		// functions that have a loop and reach a ticker creation at all
+		hasLoop := false
+		allInstrs(fn, func(ins ssa.Instruction) {
+			if inLoop(ins) {
+				hasLoop = true
+			}
+		})
+		if !hasLoop || !p.reachesCall(fn, 2, names...) {
+			continue
+		}
+		n++
+		name := fnName(fn)
+		r.Check(name+" creates its ticker outside the loop", !p.callsInLoop(fn, 1, false, names...), p.pos(fn.Pos()), name, "a ticker is created inside the loop (or in a helper called per iteration): every event restarts the interval and the tick is starved by steady traffic")
+	}
+	if n == 0 {
+		r.Undecided("ticker-paced loops", "no looping function creates a ticker")
+	}
+}
